@@ -51,6 +51,21 @@ def render : Handler := fun j => do
     pure (Json.mkObj [("s", Json.str (strOf (renderFormula k st))), ("junkOk", Json.bool st.junkOk),
       ("balanced", Json.bool k.balanced)])
 
+def abbrevName : Abbrev → String
+  | .p1 => "p1" | .p2 => "p2" | .p3 => "p3" | .both => "both" | .identXY => "identXY" | .identYX => "identYX"
+
+/-- `c16.renderAbbrev`: the specification's rendering of the abbreviated spelling `abbrev` of a key
+under a style; `applies` = whether the key has that abbreviation. -/
+def renderAbbrevH : Handler := fun j => do
+  let key ← getStr j "key"
+  let an ← getStr j "abbrev"
+  let st ← parseStyle (← j.getObjVal? "style")
+  match parseKey (codesOf key), allAbbrevKinds.find? (fun a => abbrevName a == an) with
+  | some k, some a =>
+    pure (Json.mkObj [("s", Json.str (strOf (renderAbbrev k a st))), ("junkOk", Json.bool st.junkOk),
+      ("applies", Json.bool (a.applies k && k.balanced))])
+  | _, _ => throw "not a key / not an abbreviation"
+
 def renderNameH : Handler := fun j => do
   let name ← getStr j "name"
   let mask ← getArr j "mask"
@@ -62,10 +77,14 @@ def tables : Handler := fun _ => do
   let abbr := abbreviations.map fun (s, k) => Json.arr #[Json.str (strOf s), Json.str (strOf k.codes)]
   let al := aliases.map fun (n, k) => Json.arr #[Json.str (strOf n), Json.str (strOf k.codes)]
   let keys := allKeys.map fun k => Json.str (strOf k.codes)
+  let pairs := abbrevPairs.map fun (a, k) =>
+    Json.arr #[Json.str (abbrevName a), Json.str (strOf k.codes), Json.str (strOf (abbrevCodes a k))]
   pure (Json.mkObj [("decorations", Json.arr decos.toArray), ("abbreviations", Json.arr abbr.toArray),
+    ("abbrevPairs", Json.arr pairs.toArray),
     ("aliases", Json.arr al.toArray), ("keys", Json.arr keys.toArray)])
 
 def handlers : List (String × Handler) :=
-  [("c16.model", model), ("c16.render", render), ("c16.renderName", renderNameH), ("c16.tables", tables)]
+  [("c16.model", model), ("c16.render", render), ("c16.renderAbbrev", renderAbbrevH), ("c16.renderName", renderNameH),
+   ("c16.tables", tables)]
 
 end Driver.C16
